@@ -123,6 +123,36 @@ def Period.updateRegion (p : Period) (u : UpdIn) (b e : Int) (clear : Bool) : Pe
 def Period.effBegin (p : Period) (b : Int) (clear : Bool) : Int :=
   if clear then b else if b < numOf p.ve then numOf p.ve else b
 
+/-! ### Canonical form of a segment list (part of the oracle: the driver compares denotations)
+
+  The property speaks about the covered set, not about how `AddSegment`/`RemoveSegment` happen to
+  split it into segments, so the correspondence compares `canon` of the implementation's list with
+  `canon` of the model's: empty segments dropped, sorted by begin, overlapping and touching
+  segments merged into maximal intervals.  `canon_preserves_inside` (IcingaProofs/C08.lean) shows
+  that equal canonical forms imply equal answers of `inside` at every instant. -/
+
+def insertSeg (s : Seg) : List Seg → List Seg
+  | [] => [s]
+  | x :: xs => if s.1 ≤ x.1 then s :: x :: xs else x :: insertSeg s xs
+
+def sortSegs : List Seg → List Seg
+  | [] => []
+  | s :: rest => insertSeg s (sortSegs rest)
+
+/-- Merge pass; `cur` is the interval being grown.  Two intervals are joined when they overlap or
+    touch (tested symmetrically, so that the pass is denotation-preserving on any list, sorted or not). -/
+def mergeRun (cur : Seg) : List Seg → List Seg
+  | [] => [cur]
+  | x :: xs =>
+    if x.1 ≤ cur.2 ∧ cur.1 ≤ x.2 then
+      mergeRun (if x.1 < cur.1 then x.1 else cur.1, if cur.2 < x.2 then x.2 else cur.2) xs
+    else cur :: mergeRun x xs
+
+def canon (S : List Seg) : List Seg :=
+  match sortSegs (S.filter (fun s => decide (s.1 < s.2))) with
+  | [] => []
+  | s :: rest => mergeRun s rest
+
 /-! ### list-level folds used by `Merge` (stated separately for the proofs) -/
 
 def removeAll (S : List Seg) (X : List Seg) : List Seg :=
